@@ -476,6 +476,12 @@ pub fn check_c15(tier: Tier) -> i32 {
       c.reserved = 5;
       hcells.push(c);
     }
+    // every call and every reader goes through a clone of the arena value
+    for (fl, b, unify) in [(Fl::Optimistic, Backend::Vec, false), (Fl::Pessimistic, Backend::Vec, true), (Fl::None, Backend::Anon, true)] {
+      let mut c = Cfg::new(fl, b, unify, if unify { 256 } else { 225 });
+      c.via_clone = true;
+      hcells.push(c);
+    }
     explore(&run, &spec, &hcells, &[Start::fresh(), fragmented_starts()[1].clone(), fragmented_starts()[4].clone()], "C15");
     run.set("history_pass", json!({"depth": depth, "alphabet": alphabet.iter().map(|o| o.short()).collect::<Vec<_>>(), "cells": hcells.len(), "starts": 3}));
   }
@@ -673,8 +679,9 @@ pub fn check_c19(tier: Tier) -> i32 {
   let thorough = tier == Tier::Thorough;
   let page = 4096u32;
   let cap = 3 * page + 128;
-  let all: Vec<u32> = (0..=3 * page + 80).collect();
-  let near: Vec<u32> = (0..=3 * page + 80).filter(|l| l % page <= 70 || l % page >= page - 3 || *l < 200).collect();
+  // (up to and including the capacity: an arena that is exactly full has remaining() == 0)
+  let all: Vec<u32> = (0..=cap).collect();
+  let near: Vec<u32> = (0..=cap).filter(|l| l % page <= 70 || l % page >= page - 3 || *l < 200 || *l + 3 >= cap).collect();
   let mut items: Vec<(u32, bool, bool)> = vec![];
   for r in 0..=64u32 {
     let full = thorough || [0, 5, 8, 64].contains(&r);
@@ -714,11 +721,24 @@ pub fn check_c19(tier: Tier) -> i32 {
       }
     }
   });
+  // arenas smaller than a page, of a page, and just above (capacities that are not powers of two included): every
+  // length up to the capacity
+  let small: Vec<(u32, u32, bool)> = [100u32, 1000, 3000, 4095, 4096, 4097, 5000].iter().flat_map(|c| [(0u32, *c, true), (5, *c, true), (5, *c, false), (0, *c, false)]).collect();
+  par_for_each(&small, |_, &(r, c, sync)| {
+    let lens: Vec<u32> = (0..=c).collect();
+    for b in [Backend::Vec, Backend::Anon] {
+      if sync {
+        c19_one::<sync::Arena>(&run, r, &lens, c, b);
+      } else {
+        c19_one::<unsync::Arena>(&run, r, &lens, c, b);
+      }
+    }
+  });
   let e = run.evaluations.load(std::sync::atomic::Ordering::Relaxed);
   run.trans(e);
   run.sample(|| json!({"reserved": 5, "allocated": 2 * page + 5 + 1, "builders": ["Crc32", "PosHash (position-weighted, order sensitive)"], "oracle": "checksum(b) == b.checksum_one(&allocated_memory()[5..])"}));
   run.rule("allocated length = every value (quick: every value for reserved in {0,5,8,64}, boundary-dense around page multiples for the other reserved values) x reserved 0..=64 x {Crc32, position-sensitive hash} x {sync, unsync}; contents: a byte-distinct pattern, all zero, the pattern with a two-page zero hole, zero except first and last byte; file arenas closed and opened again in the four modes for selected lengths; the reference slices at reserved_bytes() as the accessor reports it; evaluations = digests compared; non-trivial = input of at least one page");
-  run.set("bounds", json!({"max_allocated": 3 * page + 80, "reserved": "0..=64", "page_size": page}));
+  run.set("bounds", json!({"max_allocated": cap, "reserved": "0..=64", "page_size": page, "small_capacities": [100, 1000, 3000, 4095, 4096, 4097, 5000]}));
   run.finish()
 }
 
@@ -1032,6 +1052,11 @@ pub fn check_c16(tier: Tier) -> i32 {
         let mut c = Cfg::new(fl, b, u, 200 + reserved);
         c.reserved = reserved;
         cells.push(c);
+        if fl == Fl::Optimistic {
+          // the same grid through a clone of the arena value
+          c.via_clone = true;
+          cells.push(c);
+        }
       }
     }
   }
@@ -1265,7 +1290,14 @@ pub fn check_c17(tier: Tier) -> i32 {
     alpha.push(Rewind(p));
   }
   let spec = Spec { alphabet: alpha.clone(), depth: if thorough { 5 } else { 4 }, oracles: O_REWIND, sync: true, unsync: true, diff: false, diff_prop: "C17" };
-  let hcells: Vec<Cfg> = crate::props_hist::cells(&[(Backend::Vec, false), (Backend::Vec, true), (Backend::File, true)], 225, 256);
+  let mut hcells: Vec<Cfg> = crate::props_hist::cells(&[(Backend::Vec, false), (Backend::Vec, true), (Backend::File, true)], 225, 256);
+  // every call goes through a clone of the arena value (with and without a reserved prefix, every layout)
+  for (fl, b, u, reserved) in [(Fl::Optimistic, Backend::Vec, true, 0u32), (Fl::Pessimistic, Backend::Vec, false, 5), (Fl::None, Backend::Anon, true, 5), (Fl::Optimistic, Backend::File, true, 0)] {
+    let mut c = Cfg::new(fl, b, u, if u || b == Backend::File { 256 } else { 225 } + reserved);
+    c.reserved = reserved;
+    c.via_clone = true;
+    hcells.push(c);
+  }
   explore(&run, &spec, &hcells, &[Start::fresh(), fragmented_starts()[1].clone(), fragmented_starts()[4].clone()], "C17");
   // (c) clear + continuation vs fresh arena
   let hist_alpha = vec![B(N(7)), B(N(40)), B(R), T(U64), TO(A16), D(0), D(1), Disc, SetMin(0), SetMin(64), IncDisc(3), Rewind(Pos::Cur(-9))];
